@@ -1,3 +1,5 @@
+import json
+
 from circuits import Component, handler
 from circuits.core import Value
 from circuits.net.events import write
@@ -24,13 +26,25 @@ class Protocol(Component):
             self.__buffer += data
 
         packets = self.__buffer.split(DELIMITER)
+        # what follows the last delimiter may be an incomplete packet
+        tail = packets.pop()
         self.__buffer = b''
 
         for packet in packets:
             try:
                 self.__process_packet(packet)
             except ValueError:
-                self.__buffer = packet
+                # undecodable, but delimited: drop it (and only it)
+                pass
+
+        if tail:
+            try:
+                json.loads(tail.decode('utf-8'))
+            except ValueError:
+                # incomplete: keep it until the rest arrives
+                self.__buffer = tail
+            else:
+                self.__process_packet(tail)
 
     @handler(channel='node_result', priority=100)
     def result_handler(self, event, *args, **kwargs):
